@@ -141,18 +141,21 @@ func exporterOracle(pr *world.Pair) string {
 					want = refimpl.Exporter12(h, sec.Master, sec.ClientRandom, sec.ServerRandom, label, nil, false, n)
 				}
 				// public-only derivations: same formulas with an empty / all-zero secret, both random orders
-				public := map[string][]byte{
-					"TLS 1.2 PRF with an empty secret over label+client_random+server_random":    refimpl.Exporter12(h, nil, sec.ClientRandom, sec.ServerRandom, label, nil, false, n),
-					"TLS 1.2 PRF with an empty secret over label+server_random+client_random":    refimpl.Exporter12(h, nil, sec.ServerRandom, sec.ClientRandom, label, nil, false, n),
-					"P_hash with an empty secret over label+client_random+server_random":         refimpl.PHash(h, nil, append(append([]byte(label), sec.ClientRandom...), sec.ServerRandom...), n),
-					"P_hash with an empty secret over label+server_random+client_random":         refimpl.PHash(h, nil, append(append([]byte(label), sec.ServerRandom...), sec.ClientRandom...), n),
-					"P_hash with a zero secret over label+client_random+server_random":           refimpl.PHash(h, make([]byte, 48), append(append([]byte(label), sec.ClientRandom...), sec.ServerRandom...), n),
-					"TLS 1.3 exporter with an all-zero exporter secret":                          refimpl.Exporter13(h, make([]byte, h.Size()), label, nil, n),
-					"TLS 1.3 exporter with an empty exporter secret":                             refimpl.Exporter13(h, nil, label, nil, n),
+				type pubDer struct {
+					how string
+					val []byte
 				}
-				for how, pub := range public {
-					if bytes.Equal(got, pub) {
-						return fmt.Sprintf("%s: exported keying material for label %q equals %s: it is computable from the cleartext part of the handshake", e.Name, label, how)
+				public := []pubDer{
+					{"the TLS 1.2 PRF with an empty secret over label+client_random+server_random", refimpl.Exporter12(h, nil, sec.ClientRandom, sec.ServerRandom, label, nil, false, n)},
+					{"the TLS 1.2 PRF with an empty secret over label+server_random+client_random", refimpl.Exporter12(h, nil, sec.ServerRandom, sec.ClientRandom, label, nil, false, n)},
+					{"P_hash with an empty secret over label+client_random+server_random", refimpl.PHash(h, nil, append(append([]byte(label), sec.ClientRandom...), sec.ServerRandom...), n)},
+					{"P_hash with an empty secret over label+server_random+client_random", refimpl.PHash(h, nil, append(append([]byte(label), sec.ServerRandom...), sec.ClientRandom...), n)},
+					{"the TLS 1.3 exporter with an all-zero exporter secret", refimpl.Exporter13(h, make([]byte, h.Size()), label, nil, n)},
+					{"the TLS 1.3 exporter with an empty exporter secret", refimpl.Exporter13(h, nil, label, nil, n)},
+				}
+				for _, pub := range public {
+					if bytes.Equal(got, pub.val) {
+						return fmt.Sprintf("%s: exported keying material for label %q equals %s: it is computable from the cleartext part of the handshake", e.Name, label, pub.how)
 					}
 				}
 				if !bytes.Equal(got, want) {
@@ -227,10 +230,6 @@ func c07Run(t *testing.T, p *world.PKI, cc cfgCase, clientWrites bool, pos int, 
 			}
 		}
 		deliver()
-		if follow == "close" && wr.Done() {
-			cl = w.Go("Close", func(*world.Op) error { return x.Conn.Close() })
-			deliver()
-		}
 		w.SettleLoose()
 		stuck := world.MutexBlocked()
 		w.NoSkew = false
@@ -261,6 +260,12 @@ func c07Run(t *testing.T, p *world.PKI, cc cfgCase, clientWrites bool, pos int, 
 				got = append(got, rd.Data)
 			}
 			_ = y.Conn.SetReadDeadline(time.Time{})
+		}
+		if follow == "close" && wr.Done() && !stuck {
+			// the application closes right after its write: the close_notify must not leak anything either
+			cl = w.Go("Close", func(*world.Op) error { return x.Conn.Close() })
+			_ = n.Pump(2*time.Second, cl.Done)
+			n.Flush()
 		}
 		recs := dec.Poll()
 		o.NonTrivial = true
